@@ -87,6 +87,8 @@ def c04_jobs(tier):
     extra.append(conc("c04-conc", "c03", params={"n": 1500 if tier == "quick" else 20000}))
     # leases that run out on a subscription whose topic is gone (delete / re-create walks, exact model)
     extra.append(sim("c04-detached", "c11", require_nontrivial=False))
+    # push consumers: an endpoint that takes 20-90 s to answer holds a lease like any other consumer
+    extra.append(sim("c04-push", "c14", require_counters=["answers.late90s-200"], require_nontrivial=False))
     return extra + [sim("c04-phases", "c04", require_counters=["expiry_measured_by_blocked_pull", "expiry_measured_by_stream", "probe_before_deadline_empty", "probe_after_slack_returned", "second_expiry_observed", "whole_pages_redelivered_after_one_instant_expiry", "early_looks_under_long_deadlines"])]
 
 
